@@ -18,6 +18,7 @@ CONSTANTS
   MaxWrites <- Many
   WLens <- NoLens
   FrameOK <- FrameAny
+  WriteFailures = FALSE
   KeepHist = FALSE
   MaxQueued <- Many
   Truncation = TRUE
